@@ -47,6 +47,9 @@ def cases(rng, tier, shard, nshards):
         r = float(np.exp(rng.uniform(math.log(1.05), math.log(100.0)))) if rng.random() < 0.8 else \
             float(rng.choice([1.2, 1.6, 2.0, 4.0, 10.0, 100.0]))
         theta = float(rng.uniform(-math.pi, math.pi)) if cplx else 0.0
+        if cplx and rng.random() < 0.15:
+            # a ratio that is complex by a hair (rotation of 1e-12 .. 1e-3 rad): complex all the same
+            theta = float(rng.choice([-1, 1]) * 10.0 ** rng.uniform(-12, -3))
         N = int(rng.integers(1, 21))
         terms = int(rng.integers(0, 6))
         ncols = int(rng.integers(0, 5))   # 0 -> 1-d sequence
